@@ -4,8 +4,12 @@ Metamorphic oracle on the real VM (no model needed): for loop-shaped programs wh
 bounded, the smallest heap that completes N iterations must also complete 10*N iterations (the
 heap need is independent of the iteration count) — for every loop form: for / while / do-while,
 self tail calls through ?:, if/else and blocks, closures called in a loop, strings and records
-built and dropped per iteration.  A loop form in which collections never get a chance to run
-(or garbage is never reclaimed) needs a heap proportional to N.
+built and dropped per iteration, closures that are called as temporaries (callee of the
+iteration's call is the result of a call / a lambda applied in place / a curried call) and allocate
+before they read their captured variables.  A loop form in which collections never get a chance
+to run (or garbage is never reclaimed) needs a heap proportional to N; a loop form in which a
+collection frees something still in use crashes (or gives another result) once the heap is small
+enough for collections to happen.
 """
 import os
 
@@ -24,6 +28,13 @@ SHAPES = {
     "record-per-iter": "record P { x : int; y : int; }\nfunc main() -> int { var s = 0; var i = 0; while (i < %N%) { let p = P(i, i + 1); s = (s + p.x + p.y) %% 1000; i = i + 1 }; s }",
     "array-per-iter": "func main() -> int { var s = 0; var i = 0; while (i < %N%) { let t = [ i, i + 1, i + 2 ] : int; s = (s + t[1]) %% 1000; i = i + 1 }; s }",
     "string-per-iter": "func main() -> int { var s = 0; var i = 0; while (i < %N%) { let t = \"ab\" + i; s = (s + length(t)) %% 1000; i = i + 1 }; s }",
+    # the callee of every iteration is a TEMPORARY closure (nothing but the call refers to it) that first calls something
+    # which allocates and only then reads its captured variables: its environment is reachable only through the saved
+    # environment pointer of the callee's frame while collections run
+    "temp-closure-callee": "func step(s : int, i : int) -> int { s + i * 2 - i }\nfunc churn(n : int) -> int { var i = 0; var s = 0; for (i = 0; i < n; i = i + 1) { s = step(s, i) }; s }\nfunc mk(a : int, b : int, c : int) -> (int) -> int { let func (n : int) -> int { (churn(n) &&& 1) * 0 + a * 100 + b * 10 + c } }\nfunc main() -> int { var s = 0; var i = 0; while (i < %N%) { s = (s + mk(i %% 7, 2, 3)(12)) %% 1000; i = i + 1 }; s }",
+    "temp-closure-record-callee": "record P { x : int; y : int; }\nfunc build(n : int) -> int { var i = 0; var s = 0; while (i < n) { let p = P(i, s); s = (p.x + p.y) %% 100; i = i + 1 }; s }\nfunc mk(a : int, t[D] : int) -> (int) -> int { var d = a * 2; let func (n : int) -> int { d = d + build(n) * 0; d + t[1] + a } }\nfunc main() -> int { var s = 0; var i = 0; while (i < %N%) { s = (s + mk(i %% 5, [ 1, 2, 3 ] : int)(10)) %% 1000; i = i + 1 }; s }",
+    "temp-lambda-callee": "func grow(n : int) -> int { n <= 0 ? 0 : grow(n - 1) + n %% 3 }\nfunc main() -> int { var s = 0; var i = 0; while (i < %N%) { let u = i %% 9; let v = [ u, u + 1 ] : int; s = (s + let func (n : int) -> int { grow(n) * 0 + u * 10 + v[1] }(14)) %% 1000; i = i + 1 }; s }",
+    "temp-curried-callee": "func step(s : int, i : int) -> int { s + i * 2 - i }\nfunc churn(n : int) -> int { var i = 0; var s = 0; while (i < n) { s = step(s, i); i = i + 1 }; s }\nfunc mk(a : int) -> (int) -> (int) -> int { let func (b : int) -> (int) -> int { let func (n : int) -> int { churn(n) * 0 + a * 10 + b } } }\nfunc main() -> int { var s = 0; var i = 0; while (i < %N%) { s = (s + mk(i %% 7)(3)(12)) %% 1000; i = i + 1 }; s }",
     "tail-with-record": "record P { x : int; }\nfunc loop(n : int, p : P) -> int { n == 0 ? p.x : loop(n - 1, P((p.x + n) %% 1000)) }\nfunc main() -> int { loop(%N%, P(0)) }",
 }
 
@@ -68,7 +79,7 @@ def run_boundedlive(ctx, drv):
         cls, det = _outcome(drv, big, m, timeout=60)
         return name, a, (m, cls, det), big
 
-    res = vmcheck.pmap(one, names, workers=min(16, len(names)))
+    res = vmcheck.pmap(one, names, workers=min(20, len(names)))
     table = {}
     for name, a, b, big in res:
         if a[0] is None:
